@@ -52,6 +52,17 @@ def gen_case(r, k):
     n = r.randint(2, 6)
     steps = [r.choice([0.5, 1.0, 1.5, 0.25]) for _ in range(n)]
     start = r.choice([0.0, 0.0, 0.5, 1.0])
+    if k % 7 == 3:
+        # wide (e.g. geometric) bins on an image that extends beyond the outermost aperture: the centre of the last bin is well inside
+        # its outer edge (seed C19-r13 sized a working cut-out by the bin centres)
+        ny, nx = r.randint(30, 44), r.randint(30, 44)
+        rs_ = np.random.RandomState(r.randrange(2 ** 31))
+        data = np.round(rs_.normal(5, 2, (ny, nx)) * 8) / 8
+        mask = None
+        err = np.round(rs_.uniform(0.5, 2, (ny, nx)) * 8) / 8 if r.random() < 0.6 else None
+        xy = (r.randint(2 * 12, 2 * (nx - 13)) / 2, r.randint(2 * 12, 2 * (ny - 13)) / 2)
+        steps = r.choice([[1.0, 1.0, 2.0, 4.0, 4.0], [2.0, 3.0, 5.0], [0.5, 1.5, 3.0, 6.0], [1.0, 2.0, 4.0, 5.0]])
+        start = r.choice([0.0, 1.0])
     radii = [start]
     for s in steps:
         radii.append(radii[-1] + s)
